@@ -11,7 +11,7 @@ RULE = ('grammar scripts (comment-free; with window calls, AT TIME ZONE, INTERVA
         'under every inner-whitespace and casing variant; compared: statement count, get_type, tree shape (classes, nesting, significant leaves with keywords normalised); '
         'non-trivial = distinct (script, respelling) pair whose texts differ')
 ASSUMPTIONS = ['lexical clause (multi-word keywords are one token for every inner whitespace and casing) sampled through S-LEX on the respelled texts']
-PARTIAL = ['splitter: view-invariance theorem; grouping: respell_group (values of existing tokens: keyword case, inner whitespace of multi-word keywords, whitespace values) and whitespace_count_invariant (number/type of whitespace tokens, on the decidable domain InDomain: no comment token, no := token, WsDomain) are theorems over all 25 passes; with comments or := the statement is false for the library (known findings KF-C11-1/2); the lexical step (re-spelled text lexes to WsEquiv token lists) is a theorem for re-spellings that keep the number of whitespace characters, under the decidable wsRespellable (DOMAIN(wsrespell)); length-changing whitespace runs at text level and get_type are checked by the metamorphic oracle on the real code']
+PARTIAL = ['splitter: view-invariance theorem; grouping: respell_group (values of existing tokens: keyword case, inner whitespace of multi-word keywords, whitespace values) and whitespace_count_invariant (number/type of whitespace tokens, on the decidable domain InDomain: no comment token, no := token, WsDomain) are theorems over all 25 passes; with comments or := the statement is false for the library (known findings KF-C11-1/2); the lexical step (re-spelled text lexes to WsEquiv token lists) is a theorem: for re-spellings that keep the number of whitespace characters under the decidable wsRespellable (DOMAIN(wsrespell)), and for whitespace runs of ANY length under the decidable wsRespellableAny (DOMAIN(wsrespellany)); texts outside both domains (comments, dollar quotes, quoted tokens at the very end of the text) and get_type are checked by the metamorphic oracle on the real code']
 WS = [' ', '  ', '\t', '\n', '\r\n', ' \n ', '\n\n', '\t ']
 
 
@@ -365,6 +365,20 @@ def domain_wsrespell(ctx, originals):
                 break
     ctx.dist['wsrespell_texts_in_domain'] = indom
     ctx.dist['wsrespell_texts'] = len(originals)
+    # DOMAIN(wsrespellany): the same for re-spellings that change the LENGTH of the runs (theorem respelled_runs_of_any_length_lex_equivalently)
+    outs = ctx.model.ask(['wsrespellany ' + hexs(t) for t in originals])
+    indom = 0
+    for t, o in zip(originals, outs):
+        ctx.stream('DOMAIN(wsrespellany)', inputs=1, lines=1)
+        if not o.startswith('ok 1'):
+            continue
+        indom += 1
+        for _ in range(2):
+            b = ''.join(''.join(rng.choice(WS_CHARS) for _ in range(rng.randint(1, 3))) if (tt in T.Whitespace) else v for tt, v in lexer.tokenize(t))
+            if ws_canon(b) != ws_canon(t):
+                ctx.mismatch('DOMAIN(wsrespellany)', [t, b], 'real lexer: token lists not WsEquiv', 'WsEquiv (theorem respelled_runs_of_any_length_lex_equivalently)')
+                break
+    ctx.dist['wsrespellany_texts_in_domain'] = indom
 
 
 def classify(f, kf):
